@@ -10,5 +10,7 @@ def run(ctx):
     go_chain(ctx, want=('go.complete',))      # end of input reaches the collector whatever was read (empty input, --take 0, scalars only)
     from ..scen_sorter import sorter
     sorter(ctx, want_order=True, want_topn=True)     # a sorter in front of the collector forwards complete() after flushing      # the group is emitted behind --skip/--take only if the limiter forwards complete()
+    from ..scen_readinput import read_input
+    read_input(ctx, ['read.ignore_silent', 'read.one_context_per_value'])     # a malformed (e.g. truncated) value does not end the run: the collection is still emitted
     from ..conform import conformance
     conformance(ctx, ['pipeline'])      # the references the obligations are stated against, compared with jawk::go on concrete runs (validates the oracles; never decides)
